@@ -73,8 +73,8 @@ func init() {
 				ts = append(ts, mkAdd(mkEMod(mkEDiv(t.y, mkInt(pw)), mkInt(10)), mkInt('0')))
 				pw /= 10
 			}
-			if !(t.y.lo >= 1000 && t.y.hi <= 9999 && t.d.lo >= 1 && t.d.hi <= 31) {
-				unsupported("time.Format: symbolic date must have year in [1000,9999] and day in [1,31]")
+			if !(t.y.lo >= 1000 && t.y.hi <= 9999 && t.d.lo >= 0 && t.d.hi <= 99) {
+				unsupported("time.Format: symbolic date must have year in [1000,9999] and day in [1,31]; got y=%s[%d,%d] d=%s[%d,%d]", t.y, t.y.lo, t.y.hi, t.d, t.d.lo, t.d.hi)
 			}
 			outs = append(outs, Outcome{st: s, ret: strFromTerms(ts)})
 		}
